@@ -71,7 +71,7 @@ def write_graph(graph, where="home"):
 
 
 SLIM = ("r", "ra", "ru", "ria", "b", "ba", "bu", "c", "rf", "re", "re2",
-        "rpa", "ms", "cm", "cma")
+        "rpa", "ms", "cm", "cma", "rsb")
 
 
 def commands(graph, targets):
@@ -82,7 +82,7 @@ def commands(graph, targets):
     for t in targets:
         for c in ("r", "ra", "ru", "ri", "ria", "rp", "b", "ba", "bu", "c",
                   "p", "pr", "sc", "rf", "re", "re2", "rpa", "riu", "ms", "cm",
-                  "cma"):
+                  "cma", "rsb", "rsq"):
             if slim and c not in SLIM:
                 continue
             cmds.append((c, t))
@@ -118,6 +118,9 @@ def command_text(graph, cmd):
         "p": f"M{t}->_p_{t}",
         "pr": f"M{t}->probe_{t}()",
         "sc": f"M{t}->scaled_{t}(2)",
+        # other spellings of the same module name name the same instance
+        "rsb": f"require 'M{t}.ckl' as ST{t}; ST{t}->bump_{t}()",
+        "rsq": f"require \"M{t}\" as SQ{t}; SQ{t}->bump_{t}()",
         "rf": f"def rq{t}() do require M{t}; M{t}->bump_{t}() end; rq{t}()",
         # issued through interpret(.., environment=E): E persistent / fresh
         "re": f"require M{t}; M{t}->bump_{t}()",
@@ -283,6 +286,14 @@ class Importer(e4.Explorer):
             elif c == "bu":
                 resp = ["value", str(m.bump(t))] \
                     if m.names.get(f"bump_{t}") == ("sym", t) else ERR
+            elif c in ("rsb", "rsq"):
+                m.load(t, [])
+                n = ("ST" if c == "rsb" else "SQ") + str(t)
+                if n not in m.names:
+                    added.add(n)
+                m.names[n] = ("mod", t)
+                m.written.discard(n)
+                resp = ["value", str(m.bump(t))]
             elif c in ("re", "re2"):
                 # binds in the caller's environment, not in the session
                 m.load(t, [])
